@@ -894,3 +894,15 @@ func goid() int64 {
 	}
 	return id
 }
+
+// RandSeed replaces math/rand.Seed (the simulation is seeded from the schedule).
+func RandSeed(int64) {}
+
+// SendI is `ch <- v` where v's static type differs from the channel's element type (interface element or untyped nil).
+func SendI[T any](site string, ch chan<- T, v any) {
+	var x T
+	if v != nil {
+		x = v.(T)
+	}
+	Send(site, ch, x)
+}
